@@ -1,7 +1,8 @@
 (* C03 -- Type mismatches are rejected at compile time.
    Only pinned statements, `exact`, Examples by vm_compute, and Print Assumptions. *)
 From Coq Require Import String List NArith ZArith PArith Bool FMapPositive.
-From Sylt Require Import Syntax.Resolved Types.TyGraph Types.Tc Types.Ctx Types.TcInv Types.Reject Types.Mismatch.
+From Sylt Require Import Syntax.Resolved Types.TyGraph Types.Tc Types.Ctx Types.TcInv Types.Reject Types.Mismatch
+  Types.CopyInst Types.Calls Types.CallsDecl.
 Import ListNotations.
 Local Open Scope string_scope.
 
@@ -91,6 +92,62 @@ Theorem C03_every_function_preserves : forall g kinds f,
   gpres (gfix g) /\ apres (afix kinds (gfix g) f).
 Proof. intros. split; [apply gfix_pres|apply afix_pres, gfix_pres]. Qed.
 
+(* ---- through calls and variables (monomorphic annotations) *)
+
+(* What every state extension keeps, one level below the shape: the components of a class stay, position by
+   position (parameter n / result of a function type, element n of a tuple, element type of a list, field / variant
+   k of a blob / enum), in the classes of the components it had; so a component whose type is a leaf (int, float,
+   bool, str, void, nil) keeps that type whatever its parent is unified with. *)
+Theorem C03_component_keeps_leaf_type : forall s s' i h h' x c c' t,
+  ext s s' -> head s i = Some h -> head s' i = Some h' -> kid h x = Some c -> kid h' x = Some c' ->
+  head s c = Some t -> rigid t = true -> head s' c' = Some t.
+Proof. exact TcInv.kid_keep. Qed.
+
+(* The instantiation fact about fn copy / inner_copy that the call theorems need (next to copy_shape): the
+   components of an instance correspond to the components of the original, and a leaf-typed component of the
+   original is a component of that very type in the instance.  (Nothing is said about components of other types.) *)
+Theorem C03_instance_keeps_leaf_components : forall g a s r s' h x c t,
+  wf s -> copy (gfix g) a s = Ok (r, s') ->
+  head s a = Some h -> kid h x = Some c -> head s c = Some t -> rigid t = true ->
+  exists h' c', head s' r = Some h' /\ kid h' x = Some c' /\ head s' c' = Some t.
+Proof. exact CopyInst.copy_leaf_kids. Qed.
+
+(* After the top-level declaration `f :: fn p1: t1, .., pn: tn -> r do .. end` (every parameter and the result
+   annotated with a leaf type; the body is arbitrary), any of the following, anywhere inside the value of a later
+   top-level definition (any one-hole expression context C: operand, argument, element, field initialiser,
+   condition, branch / loop / function / closure body, case arm, unused expression statement), makes the type
+   checker not return Ok, for every fuel, variable table and whatever the other statements are:
+   - BadCallArg: a call f(.., a, ..) where a is a literal or itself a call of f, of another type than parameter n;
+   - BadCallArity: a call of f with another number of arguments than parameters;
+   - BadCallOperand: any mismatch kind of bad_expr with literals or calls of f as the operands:
+     "a" + f(1), f(1) - "b", f(1) == "a", not f(1), -f(1), f(1) and b, f(1)(2), if f(1) do .., [f(1), "a"]. *)
+Theorem C03_calls : forall name v kind dty nm params ps rb tsp body pure fsp dsp e,
+  annotated params ps -> (forall n b, nth_error ps n = Some b -> rigid_base b = true) -> rigid_base rb = true ->
+  bad_call v ps rb e ->
+  forall pre mid post dname dvar dkind dty' (C : ectx) dsp' sp0 fuel vars,
+    typecheck fuel (mkResolved vars
+      (pre ++ SDefinition name v kind dty (EFunction nm params (TResolved rb tsp) body pure fsp) dsp :: mid ++
+       SDefinition dname dvar dkind dty' (plug_e e (SStatementExpression e sp0) C) dsp' :: post)) <> Ok tt.
+Proof. exact CallsDecl.C03_calls_rejected. Qed.
+
+(* After `x: t = e` / `x: t : e` with a leaf type t: any mismatch kind of bad_expr with literals or reads of x as
+   the operands (x + "a" for x: int, not x, if x do .., [x, "a"]), anywhere inside a later top-level definition. *)
+Theorem C03_variable_uses : forall name v kind b tsp value dsp e,
+  rigid_base b = true -> bad_expr_g (var_atom v b) e ->
+  forall pre mid post dname dvar dkind dty' (C : ectx) dsp' sp0 fuel vars,
+    typecheck fuel (mkResolved vars
+      (pre ++ SDefinition name v kind (TResolved b tsp) value dsp :: mid ++
+       SDefinition dname dvar dkind dty' (plug_e e (SStatementExpression e sp0) C) dsp' :: post)) <> Ok tt.
+Proof. exact CallsDecl.C03_var_use_rejected. Qed.
+
+(* the local facts behind C03_calls, in any state in which the signature invariant holds *)
+Theorem C03_call_value_has_result_type : forall kinds g v ps rb,
+  (forall n b, nth_error ps n = Some b -> rigid_base b = true) -> rigid_base rb = true ->
+  forall f sp1 args sp ctx s r s',
+    wf s -> fn_sig v ps rb s -> r_expr (afix kinds (gfix g) f) (ECall (ERead v sp1) args sp) ctx s = Ok (r, s') ->
+    head s' (snd r) = Some (base_head rb).
+Proof. exact Calls.call_yields. Qed.
+
 (* ---- non-vacuity: a concrete program `start :: fn do <body> end` *)
 Definition sp0 : span := mkSpan 0 1 1 1 2.
 Definition spl (l : N) : span := mkSpan 0 l l 1 2.
@@ -112,7 +169,7 @@ Proof. vm_compute. reflexivity. Qed.
 (* the hypotheses of the placement theorem are satisfiable, and the rejection is an Err with the expected
    kind and line: 1 + "a" planted in the condition of the `if` inside the function body *)
 Example C03_example_bad : bad_expr (EBinOp Add (EInt 1 (spl 3)) (EStr "a" (spl 3)) (spl 3)).
-Proof. eapply BadArith with (k := AAdd); reflexivity. Qed.
+Proof. eapply BadArith with (k := AAdd) (ta := HInt) (tb := HStr); try reflexivity; split; reflexivity. Qed.
 
 Example C03_example_rejects :
   typecheck 40 (prog [SDefinition "x" 1 Mutable (TImplied (spl 2)) (EInt 1 (spl 2)) (spl 2);
@@ -124,7 +181,7 @@ Example C03_example_rejects :
 Proof. vm_compute. reflexivity. Qed.
 
 Example C03_example_var_type : bad_stmt (SDefinition "x" 1 Mutable (TResolved BInt (spl 2)) (EStr "a" (spl 2)) (spl 2)).
-Proof. eapply BadVarType; reflexivity. Qed.
+Proof. eapply BadVarType with (tv := HStr); try reflexivity; split; reflexivity. Qed.
 
 Example C03_example_var_type_rejects :
   typecheck 40 (prog [SDefinition "x" 1 Mutable (TResolved BInt (spl 2)) (EStr "a" (spl 2)) (spl 2)])
@@ -166,7 +223,55 @@ Proof.
   vm_compute in E. injection E as _ <-. do 2 eexists. split; [exact W|]. vm_compute. reflexivity.
 Qed.
 
+(* f :: fn p: int -> int do p end ; start :: fn do <body> end *)
+Definition fdecl : stmt :=
+  SDefinition "f" 2 Const (TImplied (spl 1))
+    (EFunction "lambda" [("p", 3%N, spl 1, TResolved BInt (spl 1))] (TResolved BInt (spl 1))
+               [SStatementExpression (ERead 3 (spl 1)) (spl 1)] false (spl 1)) (spl 1).
+Definition progf (body : list stmt) : resolved :=
+  mkResolved [mkVar 0 "start" sp0 true Const; mkVar 1 "x" (spl 2) false Mutable; mkVar 2 "f" (spl 1) true Const;
+              mkVar 3 "p" (spl 1) false Const]
+             [fdecl;
+              SDefinition "start" 0 Const (TImplied sp0)
+                          (EFunction "lambda" [] (TResolved BVoid sp0) body false sp0) sp0].
+Definition callf (a : expr) : expr := ECall (ERead 2 (spl 3)) [a] (spl 3).
+
+Example C03_example_call_ok :
+  typecheck 60 (progf [SStatementExpression (EBinOp Add (callf (EInt 1 (spl 3))) (EInt 2 (spl 3)) (spl 3)) (spl 3)]) = Ok tt.
+Proof. vm_compute. reflexivity. Qed.
+
+(* f("a") *)
+Example C03_example_call_arg : bad_call 2 [BInt] BInt (callf (EStr "a" (spl 3))).
+Proof.
+  eapply BadCallArg with (n := 0%nat) (ta := HStr) (b := BInt); try reflexivity. apply CALit. split; reflexivity.
+Qed.
+Example C03_example_call_arg_rejects :
+  typecheck 60 (progf [SStatementExpression (callf (EStr "a" (spl 3))) (spl 3)]) = Err (mkErr KMismatch (spl 3)) [].
+Proof. vm_compute. reflexivity. Qed.
+
+(* "a" + f(1) *)
+Example C03_example_call_operand :
+  bad_call 2 [BInt] BInt (EBinOp Add (EStr "a" (spl 3)) (callf (EInt 1 (spl 3))) (spl 3)).
+Proof.
+  apply BadCallOperand. eapply BadArith with (k := AAdd) (ta := HStr) (tb := HInt); try reflexivity.
+  - apply CALit. split; reflexivity.
+  - apply (CACall 2 BInt).
+Qed.
+Example C03_example_call_operand_rejects :
+  typecheck 60 (progf [SStatementExpression (EBinOp Add (EStr "a" (spl 3)) (callf (EInt 1 (spl 3))) (spl 3)) (spl 3)])
+  = Err (mkErr KBinOp (spl 3)) [].
+Proof. vm_compute. reflexivity. Qed.
+
+(* the hypotheses of C03_calls about the declaration hold of fdecl *)
+Example C03_example_fdecl_annotated : annotated [("p", 3%N, spl 1, TResolved BInt (spl 1))] [BInt].
+Proof. constructor; [|constructor]. repeat eexists. Qed.
+
 Print Assumptions C03_placement.
+Print Assumptions C03_component_keeps_leaf_type.
+Print Assumptions C03_instance_keeps_leaf_components.
+Print Assumptions C03_calls.
+Print Assumptions C03_variable_uses.
+Print Assumptions C03_call_value_has_result_type.
 Print Assumptions C03_placement_expr.
 Print Assumptions C03_propagation.
 Print Assumptions C03_no_output_on_error.
